@@ -29,7 +29,7 @@
 //   mpti a.. (6 bits) x y (ints)    point<ptrdiff_t>(x,y) * m and transform(m, point<ptrdiff_t>): 4 bit patterns
 //   mgenp k x y (bits)              k = t|s: get_translate / get_scale(point<double>(x,y)); k = u: get_scale(x): 6 bit patterns
 //   mcr w h (ints) rads (bits)      center_rotate(point<ptrdiff_t>(w,h), rads): 6 bit patterns
-//   iop k a.. b.. (12 ints)         matrix3x2<long>: k = m: a * b; k = e: m = a; m *= b; k = s: m = a; m *= m (b ignored): 6 integers
+//   iop k a.. b.. (12 ints)         matrix3x2<long>: k = m: a * b; k = e: m = a; m *= b; k = s: m = a; m *= m (b ignored); k = i: inverse(a) (a unimodular); k = p: point<long>(b.a, b.b) * a: 6 (2) integers
 //   resc vt s w h dw dh n M1..Mn    m = identity; m *= Mi/8 (6n integers: entries are k/8) for i = 1..n; resample_pixels(src, dst, m): dst dump `|` direct loop
 //                                   (every sample point lies on the 1/8^n grid: exact)
 //   resrt vt w h dw dh n M1..Mn     INTEGER matrices (6n integers, product unimodular): m = identity; m *= Mi; resample_pixels(src, dst, m, nearest), then
@@ -388,6 +388,8 @@ static std::string handle_op(std::string const& line) {
             if (w[1] == "m") r = a * b;
             else if (w[1] == "e") { r = a; r *= b; }
             else if (w[1] == "s") { r = a; r *= r; }
+            else if (w[1] == "i") r = gil::inverse(a);          // truncating division: exact for the unimodular operands the generator sends
+            else if (w[1] == "p") { gil::point<long> q = gil::point<long>(b.a, b.b) * a; return std::to_string(q.x) + " " + std::to_string(q.y); }
             else return "bad-op";
             return std::to_string(r.a) + " " + std::to_string(r.b) + " " + std::to_string(r.c) + " " + std::to_string(r.d) + " " + std::to_string(r.e) + " " + std::to_string(r.f);
         }
